@@ -20,6 +20,10 @@ CHECKS = {
    technique="differential property-based testing: interpreter (source and saved .ao) versus gcc-linked C executable over generated programs x levels",
    text="Generated programs, including ones ending by uncaught exception, failed assertion, never or error, run at -Q{0,1,2,3,5,9} under -Ginterp (from .as and from the saved .ao) and as executable; normalised stdout, exit class and the Unhandled Exception text must agree.",
    note="Only tool-emitted text is normalised away.", design="4 C03"),
+ "C04": dict(level="exploration", engine="hypothesis-subprocess",
+   technique="three-way differential testing (constant folder / interpreter / C runtime) of every pure builtin over the boundary product of its argument types, plus an exact Python model for the Bool/Char/SInt/BInt operations",
+   text="For each of 133 builtin operations one generated source imports it from Builtin and prints its exact result on every boundary tuple of its domain; the outputs of -Q0 -Ginterp, the -Q0 executable and -Q2 -Qinline-all (folded) must agree line by line and with the mathematical model. 69 operations are actually folded (checked in the -Q2 FOAM), the others are compared interpreter vs runtime vs model.",
+   note="Quick tier: seeded sample of <= 160 tuples per operation; thorough: up to 3000 (the full product for most operations).", design="4 C04"),
  "C05": dict(level="exploration", engine="hypothesis-subprocess",
    technique="round-trip and differential property-based testing: generated programs with extreme constants through .ao / .fm / .al and library/client splits, byte comparison after the two stated normalisations",
    text="C, FOAM text and Lisp generated from the saved .ao and .fm must equal those from the source (input-file line deleted, wide-integer re-expressions compared by value); .fm re-save is byte-identical; the saved .ao behaves like the source; a library/client split (also through an archive, member first/middle/last) behaves like the single unit on interpreter and executable.",
@@ -123,7 +127,7 @@ def main():
             {"name": "rapidcheck-stateful", "path": "harness/containers_rc.cc", "serves_properties": ["C10", "C20"], "kind_free_text": "rapidcheck-generated operation histories against reference models"},
             {"name": "exhaustive-loop+hypothesis", "path": "harness/xfloat_check.cc", "serves_properties": ["C19"], "kind_free_text": "exhaustive bit-pattern loops; Hypothesis-generated literals through the compiler"},
             {"name": "fault-enumeration", "path": "vt/props/c17.py", "serves_properties": ["C17", "C18"], "kind_free_text": "enumerated damage / write-fault points applied to real compiler runs"},
-            {"name": "hypothesis-subprocess", "path": "vt/", "serves_properties": ["C01", "C02", "C03", "C05", "C06", "C07", "C08", "C09", "C12", "C13", "C14", "C15", "C16"], "kind_free_text": "Hypothesis-generated programs/inputs driving the compiler under test as a subprocess"},
+            {"name": "hypothesis-subprocess", "path": "vt/", "serves_properties": ["C01", "C02", "C03", "C04", "C05", "C06", "C07", "C08", "C09", "C12", "C13", "C14", "C15", "C16"], "kind_free_text": "Hypothesis-generated programs/inputs driving the compiler under test as a subprocess"},
         ],
         "checks": checks,
         "not_applicable": na,
